@@ -67,3 +67,26 @@ def run_sim(main, chooser, gran='sync', step_cap=400000, start_dt=None,
     env.quiet_excepthook()
     out = sim.run(lambda: main(sim))
     return sim, out
+
+
+def thread_of_agent(sim, agent):
+    """The simulated thread that runs `agent` (latest one), found through the
+    thread body's bound object - independent of Agent's private attributes."""
+    found = None
+    for t in sim.threads:
+        if getattr(t.target, '__self__', None) is agent:
+            found = t
+    if found is None:
+        th = getattr(agent, '_thread', None)
+        found = getattr(th, '_st', None)
+    return found
+
+
+def job_control_of(obj):
+    """The JobControl instance held by a WebApp, whatever the attribute is
+    called."""
+    from bardolph.lib.job_control import JobControl
+    for v in vars(obj).values():
+        if isinstance(v, JobControl):
+            return v
+    raise RuntimeError('no JobControl found on {!r}'.format(obj))
